@@ -61,6 +61,45 @@ type mcSpec struct {
 	// fault injection: the transport fails (both directions) after CutAt bytes were read from direction CutDir
 	CutDir string `json:"cut_dir,omitempty"`
 	CutAt  int64  `json:"cut_at,omitempty"`
+	CutIn  string `json:"cut_inside,omitempty"`
+}
+
+// preciseCutOffset lays out the packet stream side A will write (one sender, one channel: the
+// messages go out in program order, cut into packets of the configured payload size) and returns
+// a byte offset that lies inside the payload bytes of the final packet of a chosen message, i.e.
+// after that packet's channel id and EOF marker were transmitted.
+func preciseCutOffset(a *side, sp *mcSpec, frac float64) (int64, string) {
+	msgs := append(append([]*msg{}, a.senders[0]...), a.fences...)
+	target := int(frac * float64(len(msgs)))
+	if target >= len(msgs) {
+		target = len(msgs) - 1
+	}
+	var off int64
+	for i, m := range msgs {
+		rest := m.data
+		for pk := 0; ; pk++ {
+			n := len(rest)
+			if n > sp.Payload {
+				n = sp.Payload
+			}
+			p := p2pconn.PacketMsg{ChannelID: sp.Chans[m.Ch].ID, Bytes: rest[:n]}
+			if n == len(rest) {
+				p.EOF = 1
+			}
+			enc := int64(len(ser.MustEncodeToBytesWithType(p)))
+			if i == target && p.EOF == 1 {
+				missing := 1 + int(frac*1000)%n // 1..n payload bytes never arrive
+				return off + enc - int64(missing), fmt.Sprintf("message idx=%d (%d bytes), packet #%d (eof=1, %d payload bytes): the last %d payload bytes are never transmitted",
+					m.Idx, len(m.data), pk, n, missing)
+			}
+			off += enc
+			rest = rest[n:]
+			if len(rest) == 0 {
+				break
+			}
+		}
+	}
+	return off, "end of stream"
 }
 
 type side struct {
@@ -391,6 +430,16 @@ func runMConn(c *core.Ctx, procs int) {
 	sp := &mcSpec{Procs: procs}
 	sp.Transport = []string{"secret/pipe", "secret/pipe", "secret/pipe", "secret/netpipe", "raw/pipe", "raw/pipe", "raw/netpipe"}[r.Intn(7)]
 	nch := r.Range(1, 4)
+	wantCut := strings.HasSuffix(sp.Transport, "/pipe") && r.Chance(0.25)
+	cutFrac := float64(r.Intn(1000)) / 1000
+	cutDirAB := r.Bool()
+	// "precise" cut: one channel and one sender on side A over the raw pipe make A's packet
+	// stream a pure function of the case, so the cut can be placed inside the payload bytes of a
+	// chosen final (EOF) packet and the case replays deterministically
+	preciseCut := wantCut && sp.Transport == "raw/pipe" && r.Chance(0.6)
+	if preciseCut {
+		nch = 1
+	}
 	ids := r.Perm(256)
 	for i := 0; i < nch; i++ {
 		sp.Chans = append(sp.Chans, chanSpec{
@@ -411,9 +460,10 @@ func runMConn(c *core.Ctx, procs int) {
 	sp.Slow = [2]int{[]int{0, 0, 1, 5, 40}[r.Intn(5)], []int{0, 0, 1, 5, 40}[r.Intn(5)]}
 	sp.Senders = [2]int{r.Range(1, 8), r.Range(1, 8)}
 	sp.PipeAB, sp.PipeBA = genPipeSpec(r), genPipeSpec(r)
-	wantCut := strings.HasSuffix(sp.Transport, "/pipe") && r.Chance(0.25)
-	cutFrac := float64(r.Intn(1000)) / 1000
-	cutDirAB := r.Bool()
+	if preciseCut {
+		sp.Senders[0] = 1
+		sp.PingMs = 0
+	}
 
 	if wantCut || sp.PingMs > 0 {
 		// a Send blocked on a full queue when the connection dies waits out the 10 s send timeout
@@ -481,6 +531,10 @@ func runMConn(c *core.Ctx, procs int) {
 				sp.CutDir = "B->A"
 			}
 			sp.CutAt = 1 + int64(cutFrac*float64(vol))
+			if preciseCut {
+				hf, sp.CutDir = pa.out, "A->B"
+				sp.CutAt, sp.CutIn = preciseCutOffset(h.sides[0], sp, cutFrac)
+			}
 			hf.mu.Lock()
 			hf.failAt = hf.nread + sp.CutAt
 			hf.mu.Unlock()
@@ -589,6 +643,15 @@ func runMConn(c *core.Ctx, procs int) {
 		return
 	}
 
+	if c.Verbose {
+		h.errMu.Lock()
+		c.Logf("mconn outcome=%s cut=%v errs=%v transport=%s chans=%d payload=%d senders=%v msgs=%v cut_dir=%s cut_at=%d cut_inside=%q",
+			h.reason, h.cut(), h.errs, sp.Transport, len(sp.Chans), sp.Payload, sp.Senders, sp.Msgs, sp.CutDir, sp.CutAt, sp.CutIn)
+		h.errMu.Unlock()
+		for _, s := range h.sides {
+			c.Logf("  wire tail of %s: %v", s.name, wireTail(s.tap.bytes(), sp.Payload, 3))
+		}
+	}
 	if h.reason == "conn-error" {
 		h.errMu.Lock()
 		errs := append([]string(nil), h.errs...)
@@ -596,6 +659,9 @@ func runMConn(c *core.Ctx, procs int) {
 		if h.cut() {
 			// we broke the transport ourselves: losses are fine, everything delivered is still judged
 			c.Count("mc_runs_cut_by_harness", 1)
+			if sp.CutIn != "" {
+				c.Count("mc_runs_cut_inside_final_packet", 1)
+			}
 		} else if sp.PingMs > 0 {
 			// fast pings: a pong that takes longer than the (wall-clock) pong timeout makes one side stop,
 			// the other side then sees EOF (its error can be reported first). Provoked by our own
